@@ -27,6 +27,8 @@ pub struct GenCfg {
     pub defaulted_params: bool,
     /// aliased fixtures may be implemented by functions named `test_*`
     pub test_named_fixtures: bool,
+    /// fixture functions may be written on one physical line (`def a(a) -> T: """DOC"""; return 1`): `body` 6..9
+    pub oneline_fixtures: bool,
 }
 
 impl Default for GenCfg {
@@ -47,6 +49,7 @@ impl Default for GenCfg {
             multi_plugin_assignments: false,
             defaulted_params: false,
             test_named_fixtures: false,
+            oneline_fixtures: false,
         }
     }
 }
@@ -82,7 +85,7 @@ fn fixture(cfg: &GenCfg) -> impl Strategy<Value = FixtureSpec> {
         names_vec(cfg, 2),
         prop_oneof![5 => Just(0u8), 1 => Just(1u8), 2 => Just(2u8), 1 => Just(3u8), 2 => Just(4u8)],
         prop_oneof![6 => Just(false), 1 => Just(true)],
-        prop_oneof![4 => 0u8..3, 1 => 3u8..6],
+        if cfg.oneline_fixtures { prop_oneof![4 => 0u8..3, 1 => 3u8..6, 1 => 6u8..9].boxed() } else { prop_oneof![4 => 0u8..3, 1 => 3u8..6].boxed() },
         0u8..3,
         prop_oneof![8 => Just(Vec::new()), 1 => names_vec(cfg, 1)],
         prop_oneof![5 => Just(Vec::new()), 1 => names_vec(cfg, 2)],
